@@ -48,6 +48,13 @@ def plan(ctx):
         a = [rng.choice(AG) for _ in names]
         p = [rng.choice(AG) for _ in names]
         ops.append("lasp %s token=%d ap=%s pre=%s" % (rng.choice(["connect", "pconnect"]), rng.choice([1, 1, 0]), enc(names, a), enc(names, p)))
+    # the attempt observed is not the application's first: an earlier one saw other collector policies and failed at connect
+    for _ in range(400 if tier == "quick" else 6000):
+        nm = names[:3]
+        a = [rng.choice(AG) for _ in nm]
+        p1 = [rng.choice(AG) for _ in nm]
+        p2 = [rng.choice(AG) for _ in nm]
+        ops.append("lasp pconnect2 token=%d ap=%s pre1=%s pre=%s" % (rng.choice([1, 1, 1, 0]), enc(nm, a), enc(nm, p1), enc(nm, p2)))
     seqs = [("lasp-%d" % i, ops[i:i + 200]) for i in range(0, len(ops), 200)]
     return [("corpus", corpus(ID)), ("enum", seqs)]
 
